@@ -20,6 +20,7 @@ from .seams import SimKill
 
 VERIF = os.path.dirname(os.path.dirname(os.path.abspath(__file__)))
 DEFAULT_SEED = 20260926
+KEEP_DIGESTS = False     # per-run event-log digests are only collected by the determinism self-test
 PROPS = ('C01', 'C02', 'C03', 'C04', 'C05', 'C07', 'C09', 'C10', 'C11', 'C12', 'C13', 'C14', 'C16', 'C17',
          'C18', 'C19')
 
@@ -149,7 +150,8 @@ def _worker(args):
             out['cases'].add(cd[:12])
             if ctx.nontrivial:
                 out['nontrivial'].add(cd[:12])
-            out['digests'].append((i, canon.digest(ctx.events)))
+            if KEEP_DIGESTS:
+                out['digests'].append((i, canon.digest(ctx.events)))
             if len(out['samples']) < 1 and ctx.nontrivial:
                 out['samples'].append(prop.sample(case) if hasattr(prop, 'sample') else case)
             if herr:
